@@ -102,6 +102,24 @@ def scenarios(rng, quick):
         write_pkg(d + "/v1", "Main", BASE.replace("items: float", "items: string"))
         write_pkg(d + "/main", "Main", BASE, cfg, versions=[("v0", "../v0"), ("v1", "../v1")])
     yield "evolution:incompatible-step-2nd-version", ev2
+    def ev3(d, cfg):
+        # the incompatible version is listed FIRST, later ones are fine
+        write_pkg(d + "/v0", "Main", BASE.replace("items: float", "items: float*"))      # scalar <-> vector: documented breaking change
+        write_pkg(d + "/v1", "Main", BASE)
+        write_pkg(d + "/v2", "Main", BASE)
+        write_pkg(d + "/main", "Main", BASE, cfg, versions=[("v0", "../v0"), ("v1", "../v1"), ("v2", "../v2")])
+    yield "breaking-evolution:1st-of-3-versions", ev3
+    def ev4(d, cfg):
+        write_pkg(d + "/v0", "Main", BASE)
+        write_pkg(d + "/v1", "Main", BASE.replace("items: float", "items: float*"))
+        write_pkg(d + "/v2", "Main", BASE)
+        write_pkg(d + "/main", "Main", BASE, cfg, versions=[("v0", "../v0"), ("v1", "../v1"), ("v2", "../v2")])
+    yield "breaking-evolution:2nd-of-3-versions", ev4
+    def ev5(d, cfg):
+        write_pkg(d + "/v0", "Main", BASE)
+        write_pkg(d + "/v1", "Main", BASE.replace("items: float", "items: float*"))
+        write_pkg(d + "/main", "Main", BASE, cfg, versions=[("v0", "../v0"), ("v1", "../v1")])
+    yield "breaking-evolution:last-of-2-versions", ev5
     yield "package:bad-namespace", (lambda d, cfg: write_pkg(d + "/main", "main_ns", BASE, cfg))
     yield "package:unknown-key", (lambda d, cfg: write_pkg(d + "/main", "Main", BASE, cfg + "bogus: 1\n"))
     yield "package:missing-import-dir", (lambda d, cfg: write_pkg(d + "/main", "Main", BASE, cfg, imports=["../nothere"]))
